@@ -135,7 +135,7 @@ pub fn check_source(src: &str, acc: &mut Acc) -> Verdict {
     }
 }
 
-const BODY_ALPHABET: [&str; 16] = ["(", ")", "[", "]", "{", "}", "a", " ", "\"", "#", "/", "$", "é", "€", "😀", "\n"];
+const BODY_ALPHABET: [&str; 19] = ["(", ")", "[", "]", "{", "}", "a", " ", "\"", "#", "/", "$", "é", "€", "😀", "\n", "\\", "\t", "\r"];
 const SECOND: [&str; 5] = ["#[derive(Debug)]", "#[a]", "#[doc = \"é\"]", "#[zz(all())]", "#[b(c[d]{e})]"];
 
 fn finding(src: &str, what: String, e: Value, o: Value) -> Finding {
@@ -193,7 +193,7 @@ pub fn template_sources(body: &str) -> Vec<String> {
 
 pub fn run(ctx: &Ctx) -> Outcome {
     let mut out = Outcome::new("exploration");
-    let (b_full, b_single) = ctx.tier.pick((4usize, 4usize), (5, 6));
+    let (b_full, b_single) = ctx.tier.pick((3usize, 4usize), (4, 5));
     let n = BODY_ALPHABET.len();
     let units = crate::reflex::string_units(n, b_single, 2);
     let t0 = std::time::Instant::now();
